@@ -57,7 +57,24 @@ def check(ctx):
     ctx.guard("C16.b PENALTY-ROLE", "MVCAPA", lambda: check_roles(ctx, cls, pred, helper), pred.loc())
     ctx.guard("C16.c DENSE-MARK", "sparse_to_dense", lambda: check_dense(ctx), cls.module.relpath)
     ctx.guard("C16.d FORMAT", "formatter", lambda: check_formatter(ctx), cls.module.relpath)
+    ctx.guard("C16.b PENALTY-ROLE", "sparse-formula", lambda: shared_sparse_formula(ctx), cls.module.relpath)
     ctx.expect_min("C16", len([o for o in ctx.obs if o.status == "HOLDS"]), 12)
+
+
+def shared_sparse_formula(ctx):
+    """The subset is optimal 'under the sparse penalty for k components': alpha = 2 scale log n plus beta = 2 scale
+    log(k p) per component.  PENALTY-ROLE decides that the sparse FAMILY is called with the right scale; that the family
+    computes that formula is C15.a NF-FORMULA (sparse|alpha, sparse|betas), re-run here under the C16 id."""
+    from . import c15
+
+    before = len(ctx.obs)
+    c15.check_families(ctx)
+    kept = []
+    for o in ctx.obs[before:]:
+        if ("NF-FORMULA" in o.rule and o.key.startswith("sparse|")) or o.status == "UNDECIDED":
+            o.rule = f"C16.b PENALTY-ROLE ({o.rule})"
+            kept.append(o)
+    ctx.obs[before:] = kept
 
 
 def check_helper(ctx, helper: FuncInfo):
@@ -316,18 +333,20 @@ def check_dense(ctx):
 
 
 def check_formatter(ctx):
+    """icolumns[i] is np.array(components of anomaly i): the same elements in the same order, one array per anomaly.
+    Decided on the paths of the formatter by the abstract interpreter (the C04.a FORMATTER obligations of the subset
+    formatter, re-run under the C16 id) - not by the spelling of the conversion (comprehension, loop, map)."""
     rule = "C16.d FORMAT"
+    from . import c04
+
     cls = ctx.P.cls("skchange.anomaly_detectors.base.SubsetCollectiveAnomalyDetector")
-    f = cls.methods.get("_format_sparse_output")
-    src = ast.unparse(f.node)
-    # structural: the components of each anomaly are converted one by one (a comprehension
-    # over the anomalies applying np.array to the third tuple component)
-    ok = False
-    for n in ast.walk(f.node):
-        if isinstance(n, ast.ListComp) and isinstance(n.elt, ast.Call):
-            fn = ctx.P.resolve_expr(f.module, n.elt.func) if isinstance(n.elt.func, (ast.Name, ast.Attribute)) else None
-            if isinstance(fn, tuple) and fn[0] == "external" and fn[1] in ("numpy.array", "numpy.asarray") and len(n.generators) == 1:
-                tgt = n.generators[0].target
-                if isinstance(tgt, ast.Tuple) and len(tgt.elts) == 3 and isinstance(n.elt.args[0], ast.Name) and isinstance(tgt.elts[2], ast.Name) and n.elt.args[0].id == tgt.elts[2].id:
-                    ok = True
-    ctx.check(ok, rule, "components-elementwise", f.loc(), "icolumns[i] is np.array(components of anomaly i): same elements, same order", found="comprehension over (start, end, components) applying np.array to components" if ok else "pattern not found")
+    before = len(ctx.obs)
+    c04.check_formatter(ctx, cls)
+    kept = []
+    for o in ctx.obs[before:]:
+        if "FORMATTER" in o.rule and ("icolumns" in o.key or o.status == "UNDECIDED"):
+            o.rule = f"{rule} ({o.rule})"
+            kept.append(o)
+    ctx.obs[before:] = kept
+    if not kept:
+        ctx.undecided(rule, "components-elementwise", cls.module.relpath, "the subset formatter's icolumns obligation was not produced")
